@@ -206,7 +206,13 @@ class State:
 
     # ---- events ----------------------------------------------------------------------------
     def log_event(self, name: str, args):
-        ev = Val.tup(sym.vl_of([Val.str(z3.StringVal(name))] + [a.val() for a in args]))
+        vals = []
+        for a in args:
+            try:
+                vals.append(a.val())
+            except Exception:  # a value with no first-order embedding (composite bytes, closures): logged as an anonymous blob
+                vals.append(sym.fresh_val("unloggable"))
+        ev = Val.tup(sym.vl_of([Val.str(z3.StringVal(name))] + vals))
         self.ev_arr = z3.Store(self.ev_arr, self.ev_len, ev)
         self.ev_len = self.ev_len + 1
 
